@@ -307,6 +307,22 @@ def check_sp(ctx, project, sp, rng, do_init):
                                   "after an in-place edit job.id is not the canonical hash of job.statepoint()",
                                   {"sp": now, "edit": v, "id": job.id, "expected": want})
                     break
+        # ... and through an edit that is refused because the destination id is taken
+        if _state["ninit"] % 12 == 3 and isinstance(sp, dict) and "zz_edit" not in sp:
+            blocker = project.open_job(dict(json.loads(json.dumps(sp)), zz_edit="taken")).init()
+            h = project.open_job(json.loads(json.dumps(sp)))
+            ctx.monitor("edited_handle_id")
+            try:
+                h.sp["zz_edit"] = "taken"
+                refused = False
+            except Exception:
+                refused = True
+            now = model.plain(h.statepoint())
+            if refused and h.id != model.model_id(now):
+                ctx.violation("id-not-hash-of-edited-statepoint",
+                              "after a refused edit (destination exists) job.id is not the canonical hash of job.statepoint()",
+                              {"sp": sp, "presented": now, "id": h.id})
+            blocker.remove()
         # the id is re-derived from the file on every load: a handle opened by id in a new session never
         # presents a value that hashes to another id, however often and through whichever accessor it is asked
         if _state["ninit"] % 12 == 6:
